@@ -224,6 +224,14 @@ class Loader:
             return v if k == "return" else None
 
         me.get_allele = get_allele
+
+        def has_coverage(a, pos):
+            k, v = Evaluator({"self": me, "a": a, "pos": pos}).run(self.body(hc))
+            if k != "return":
+                raise Raised(str(v))
+            return v
+
+        me.has_coverage = has_coverage
         return me
 
 
@@ -338,6 +346,19 @@ def check_catalogue(res, f, label, yml, me, genome):
         hit = [c for c in me.cn_configs.values() if [dict(x) for x in c.cn] == want]
         if not hit:
             bad("C09.R5", f"{tag}: no configuration has the copy vector of {n} ({arg}): expected {want}")
+    # (e3) an allele has gene copies exactly in the regions its configuration keeps (what the later stages ask before placing a variant)
+    for mj, al in me.alleles.items():
+        conf = me.cn_configs.get(al.cn_config)
+        if conf is None:
+            continue
+        for r, rng in me.regions[0].items():
+            if rng.end - rng.start <= 0:
+                continue
+            for pos in (rng.start, rng.end - 1):
+                got = me.has_coverage(mj, pos)
+                want_cov = conf.cn[0][r] > 0
+                if bool(got) != want_cov:
+                    bad("C09.R5", f"{tag}: allele {mj} (configuration {al.cn_config}) at region {r}: has_coverage says {got}, the configuration keeps {conf.cn[0][r]} copies")
     # (f) fusion partials keep exactly the parent's variants in retained regions
     for mj, al in me.alleles.items():
         if "#" not in mj:
